@@ -99,6 +99,9 @@ def judge(iso, kind, case, target, sigx):
                 elif x != y and not (len(x) == len(y) and all((p == q) or (p != p and q != q) for p, q in zip(x, y))):
                     v('data-column', f'column {col!r} changed: {x} -> {y}', x, y, {'column': col if col in ('pressure', 'loading') else 'extra'})
     if isinstance(iso, pygaps.ModelIsotherm):
+        if getattr(iso, 'branch', None) != getattr(back, 'branch', None):
+            v('model-branch', f'the branch the model describes changed: {getattr(iso, "branch", None)!r} -> {getattr(back, "branch", None)!r}',
+              getattr(iso, 'branch', None), getattr(back, 'branch', None))
         m1, m2 = iso.model.to_dict(), back.model.to_dict()
         for k in ('name', 'rmse', 'parameters', 'pressure_range', 'loading_range'):
             x, y = m1[k], m2[k]
@@ -200,7 +203,7 @@ def work(arg):
     elif kind == 'model':
         name, how = spec
         for target in ('string', 'file'):
-            extra_kw = dict(rmse=0.0, prange=(0.0, 0.9), lrange=(0.0, 3.5)) if how == 'zero-fields' else {}
+            extra_kw = dict(rmse=0.0, prange=(0.0, 0.9), lrange=(0.0, 3.5)) if how == 'zero-fields' else ({'branch': 'des'} if how == 'desorption-branch' else {})
             mk = core.call(g.mk_model, cfg, name, meta_small, fitted_dr=(how == 'fitted'),
                            params=({'K': 3.456789e-06, 'n_m': 4.5123456789} if how == 'small-parameters' else None), **extra_kw)
             if not mk.ok:
@@ -222,7 +225,7 @@ def run(ctx):
     for ci, cfg in enumerate(cfgs):
         for spec in (shapes if (not ctx.quick or ci in (0, 4)) else shapes[ci % 5::5]):
             jobs.append(('point', cfg, spec, ctx.scale))
-        for spec in g.ZERO_SHAPES + g.EARLY_SHAPES + g.TEXTNUM_SHAPES:
+        for spec in g.ZERO_SHAPES + g.EARLY_SHAPES + g.WORDS_SHAPES + g.TEXTNUM_SHAPES:
             if not ctx.quick or ci in (0, 3, 5) or spec[0] == 4:
                 jobs.append(('point', cfg, spec, ctx.scale))
         for spec in ((4, 'guessable', 'numeric'), (7, 'user-alternating', 'both')):
@@ -241,7 +244,9 @@ def run(ctx):
             if name == 'Langmuir':
                 jobs.append(('model', cfg, (name, 'small-parameters'), ctx.scale))
             if name in ('Langmuir', 'Henry', 'Toth'):
-                jobs.append(('model', cfg, (name, 'zero-fields'), ctx.scale))      # a fit error / range limit of exactly 0 is a value, not "missing"
+                jobs.append(('model', cfg, (name, 'zero-fields'), ctx.scale))
+            if name in ('Langmuir', 'DR', 'Virial'):
+                jobs.append(('model', cfg, (name, 'desorption-branch'), ctx.scale))    # a model describing the desorption branch      # a fit error / range limit of exactly 0 is a value, not "missing"
         jobs.append(('gapped-index', cfg, (7, 'guessable', 'numeric'), ctx.scale))
     res = core.pmap(work, jobs, chunk=8)
     for r in res:
